@@ -67,9 +67,9 @@ def stalled_task_policy(rng, spec, nw):
 def scenarios(ck):
     rng = ck.rng
     yield X.sanity_scenario()
-    n_rich = ck.n(100, 1500)
-    n_map = ck.n(90, 1500)
-    n_fail = ck.n(40, 600)
+    n_rich = ck.n(100, 1200)
+    n_map = ck.n(90, 1200)
+    n_fail = ck.n(40, 500)
     for i in range(n_map):
         # consumers of mapped sequences: whole, elements, chunks, slices ending inside a block, reversed slices, slices of slices
         nt = rng.randint(4, 8)
@@ -79,7 +79,7 @@ def scenarios(ck):
         pol = stalled_task_policy(rng, spec, nw) if r < 0.6 else (stalled_dep_policy(rng, nw) if r < 0.8 else X.gen_policy(rng, nw))
         yield {'program': spec, 'backend': X.pick_backend(rng, (5, 2, 1, 2)), 'prefill': [], 'keep_going': rng.random() < 0.3, 'keep_failed': False,
                'phases': [{'workers': [{'nr_wait': rng.choice([1, 2, 3, 6]), 'unload': rng.random() < 0.4} for _ in range(nw)], 'policy': pol}]}
-    for i in range(ck.n(90, 2000)):
+    for i in range(ck.n(90, 1500)):
         # single-path programs: most tasks take exactly one task-carrying argument (a tasklet chain, a container, a mapped slice ...), so
         # every dependency edge enters through one syntactic path only; the executor of one of the dependencies is parked inside it
         nt = rng.randint(3, 7)
